@@ -337,6 +337,16 @@ pub const fn c_point_on_diag(p: &Point) -> bool {
 
 #[derive(Debug, Clone, Copy, PartialEq, PartialOrd, Default)]
 pub struct FBox(pub f32);
+/// ... and whose `Ord` (IEEE total order: -0.0 < +0.0, NaN ordered) deliberately differs from its derived
+/// `PartialOrd` / `PartialEq` (a "sortable float" wrapper): a newtype must forward `cmp` to `Ord` and
+/// `partial_cmp` / the operators to `PartialOrd`, never one to the other
+impl Eq for FBox {}
+#[allow(clippy::derive_ord_xor_partial_ord)]
+impl Ord for FBox {
+    fn cmp(&self, other: &Self) -> std::cmp::Ordering {
+        self.0.total_cmp(&other.0)
+    }
+}
 pub fn fbox_abs(b: FBox) -> FBox {
     FBox(b.0.abs())
 }
